@@ -137,7 +137,7 @@ type machine struct {
 	schedNondet    bool
 	raceOn         bool // verifrt.LocksetRace: lockset check on map accesses of spawned goroutines
 	raceSeen       bool
-	mapAcc         map[*omap]*mapState
+	mapAcc         map[any]*mapState
 	preemptBudget  int
 	wedgeLabel     string
 	panicSite      string
